@@ -425,6 +425,22 @@ func grGenCase(t *rapid.T, version string, minEvents, maxEvents int) grCase {
 			c.Rejected = append(c.Rejected, e.Idx)
 		}
 	}
+	// the rejected-event oracle is an input of the resolvers: besides the events the rules reject, the
+	// caller's oracle may name any other event (a server that disagrees about an event, a soft failure)
+	if rapid.IntRange(0, 2).Draw(t, "oracleExtra") == 0 && len(r.Events) > 2 {
+		n := rapid.IntRange(1, 3).Draw(t, "oracleExtraN")
+		for k := 0; k < n; k++ {
+			i := rapid.IntRange(1, len(r.Events)-1).Draw(t, "oracleExtraAt")
+			dup := false
+			for _, j := range c.Rejected {
+				dup = dup || j == i
+			}
+			if !dup {
+				c.Rejected = append(c.Rejected, i)
+			}
+		}
+		sort.Ints(c.Rejected)
+	}
 	leaves := r.leaves()
 	nsets := rapid.IntRange(2, 4).Draw(t, "nsets")
 	seen := map[int]bool{}
